@@ -1,8 +1,263 @@
-//! C16 — not implemented yet
-use vcore::{Args, Check};
+//! C16 — a stored single signature is attributed to the party whose registered key produced it.
+//!
+//! Rounds on the real aggregator (same system as C14). Some parties are honest (they submit their own signature
+//! under their own name), the others submit anything a peer can submit: own or copied signatures, under their
+//! own, another registered or an unregistered name, for the right or a wrong message, with the current or another
+//! epoch's key, with matching or altered won-index lists — through the HTTP route, through the message-queue
+//! processor, and (both inlets, when the open message does not exist yet) through the buffer.
+//! After every step every stored row is re-verified with mithril-stm against the key the *labelled* party
+//! registered (harness model, model.rs); see `Run::check_rows`, `must_certify_next`, `check_new_certificate`.
+
+use proptest::prelude::*;
+use serde::{Deserialize, Serialize};
+use vcore::{Args, Check, Report};
+
+use crate::run::{Flavour, IdxList, Inlet, Label, Op, RegEpoch, Run, RunOpts, SignOp, Source, Target};
+use crate::sut::{SutConfig, case_runtime};
+
+#[derive(Clone, Debug, Serialize, Deserialize)]
+pub struct Case {
+    pub cfg: SutConfig,
+    /// parties that only ever submit their own signature under their own name
+    pub honest_mask: u16,
+    pub ops: Vec<Op>,
+}
+
+fn cfg_strategy() -> impl Strategy<Value = SutConfig> {
+    (
+        prop_oneof![
+            2 => Just((5u64, 100u64, 95u8)),
+            3 => Just((30u64, 100u64, 65u8)),
+            1 => Just((12u64, 40u64, 70u8)),
+        ],
+        3u8..=6,
+        prop_oneof![3 => Just(true), 1 => Just(false)],
+        prop_oneof![3 => Just(false), 1 => Just(true)],
+    )
+        .prop_map(|((k, m, phi_pct), n_signers, cardano_database, cardano_stake_distribution)| SutConfig {
+            k,
+            m,
+            phi_pct,
+            n_signers,
+            cardano_database,
+            cardano_transactions: false,
+            cardano_stake_distribution,
+        })
+}
+
+fn one_party(n: u8) -> impl Strategy<Value = u16> {
+    (0..n).prop_map(|p| 1u16 << p)
+}
+
+/// anything a peer can submit
+fn any_submission(n: u8) -> impl Strategy<Value = SignOp> {
+    (
+        one_party(n),
+        prop_oneof![10 => Just(Target::Current(0)), 2 => any::<u16>().prop_map(Target::Current), 4 => any::<u16>().prop_map(Target::NotYetOpen), 1 => any::<u16>().prop_map(Target::Old)],
+        prop_oneof![8 => Just(Flavour::Valid), 2 => Just(Flavour::WrongMessage), 2 => Just(Flavour::NextEpochKey), 1 => Just(Flavour::PrevEpochKey), 1 => Just(Flavour::Duplicate)],
+        prop_oneof![3 => Just(Inlet::Http), 1 => Just(Inlet::Dmq)],
+        prop_oneof![3 => Just(Label::Own), 5 => any::<u16>().prop_map(Label::Other), 1 => Just(Label::Unregistered)],
+        prop_oneof![3 => Just(Source::Own), 4 => any::<u16>().prop_map(Source::CopyOf)],
+        prop_oneof![4 => Just(IdxList::Matching), 1 => Just(IdxList::Truncated), 1 => Just(IdxList::Extended)],
+    )
+        .prop_map(|(mask, target, flavour, inlet, label, source, idx)| SignOp { mask, target, flavour, inlet, label, source, idx })
+}
+
+fn honest_form(mut s: SignOp) -> SignOp {
+    s.flavour = Flavour::Valid;
+    s.label = Label::Own;
+    s.source = Source::Own;
+    s.idx = IdxList::Matching;
+    if matches!(s.target, Target::Old(_)) {
+        s.target = Target::Current(0);
+    }
+    s
+}
+
+fn op_strategy(n: u8) -> impl Strategy<Value = Op> {
+    let full = (1u16 << n) - 1;
+    prop_oneof![
+        60 => any_submission(n).prop_map(Op::Sign),
+        // several parties at once in honest form (restricted to the honest ones at execution)
+        8 => (1u16..=full, prop_oneof![3 => Just(Inlet::Http), 1 => Just(Inlet::Dmq)], prop_oneof![4 => Just(Target::Current(0)), 1 => Just(Target::NotYetOpen(0))])
+            .prop_map(|(mask, inlet, target)| Op::Sign(SignOp { mask, target, flavour: Flavour::Valid, inlet, label: Label::Own, source: Source::Own, idx: IdxList::Matching })),
+        18 => prop_oneof![4 => Just(1u8), 1 => Just(2u8)].prop_map(Op::Tick),
+        3 => Just(Op::ImmutableUp),
+        2 => (1u16..=full, 0u8..=1).prop_map(|(mask, keygen)| Op::Register { mask, keygen, when: RegEpoch::Current }),
+        2 => Just(Op::EpochUp(1)),
+    ]
+}
+
+fn case_strategy() -> impl Strategy<Value = Case> {
+    cfg_strategy().prop_flat_map(|cfg| {
+        let n = cfg.n_signers;
+        let full = (1u16 << n) - 1;
+        (
+            Just(cfg),
+            0u16..=full,
+            // who registers (with which key) for the epoch after the first signing epoch
+            prop_oneof![2 => Just(full), 2 => 1u16..=full],
+            0u8..=1,
+            prop::collection::vec(op_strategy(n), 6..=16),
+        )
+            .prop_map(move |(cfg, honest_mask, reg_mask, keygen, ops)| {
+                let mut all = vec![Op::Tick(1), Op::Register { mask: reg_mask, keygen, when: RegEpoch::Current }, Op::EpochUp(1), Op::Tick(3)];
+                all.extend(ops);
+                // close the round
+                all.push(Op::Tick(2));
+                Case { cfg, honest_mask, ops: all }
+            })
+    })
+}
+
+/// The (label, signature, index list, inlet, order) product on the smallest system, enumerated: party 0 honest,
+/// party 1 the peer under test, its submission before or after party 0's own.
+fn product() -> Vec<Case> {
+    let mut v = vec![];
+    let cfg = SutConfig { k: 5, m: 100, phi_pct: 95, n_signers: 3, cardano_database: true, cardano_transactions: false, cardano_stake_distribution: false };
+    let honest = |mask: u16, inlet: Inlet| Op::Sign(SignOp { mask, target: Target::Current(0), flavour: Flavour::Valid, inlet, label: Label::Own, source: Source::Own, idx: IdxList::Matching });
+    for label in [Label::Own, Label::Other(0), Label::Other(40000), Label::Unregistered] {
+        for source in [Source::Own, Source::CopyOf(0), Source::CopyOf(40000)] {
+            for flavour in [Flavour::Valid, Flavour::WrongMessage, Flavour::NextEpochKey] {
+                for idx in [IdxList::Matching, IdxList::Truncated, IdxList::Extended] {
+                    for inlet in [Inlet::Http, Inlet::Dmq] {
+                        for buffered in [false, true] {
+                            for first in [false, true] {
+                                if inlet == Inlet::Dmq && (label != Label::Own || idx != IdxList::Matching) {
+                                    continue; // the queue fixes the sender's name and rebuilds the index list
+                                }
+                                if buffered && (flavour != Flavour::Valid || idx != IdxList::Matching) {
+                                    continue;
+                                }
+                                let adv = Op::Sign(SignOp { mask: 0b010, target: if buffered { Target::NotYetOpen(0) } else { Target::Current(0) }, flavour, inlet, label, source, idx });
+                                let mut ops = vec![Op::Tick(1), Op::Register { mask: 0b110, keygen: 1, when: RegEpoch::Current }, Op::EpochUp(1)];
+                                if buffered {
+                                    // IDLE -> READY only: the open message does not exist yet, submissions are buffered
+                                    ops.push(Op::Tick(2));
+                                    let hb = Op::Sign(SignOp { mask: 0b001, target: Target::NotYetOpen(0), flavour: Flavour::Valid, inlet, label: Label::Own, source: Source::Own, idx: IdxList::Matching });
+                                    if first { ops.extend([adv, hb]) } else { ops.extend([hb, adv]) }
+                                    ops.push(Op::Tick(1));
+                                } else {
+                                    ops.push(Op::Tick(3));
+                                    if first { ops.extend([adv, honest(0b001, inlet)]) } else { ops.extend([honest(0b001, inlet), adv]) }
+                                }
+                                ops.extend([Op::Tick(1), honest(0b101, Inlet::Http), Op::Tick(2)]);
+                                v.push(Case { cfg: cfg.clone(), honest_mask: 0b101, ops });
+                            }
+                        }
+                    }
+                }
+            }
+        }
+    }
+    v
+}
+
+pub fn run_case(c: &Case) -> Report {
+    let rt = case_runtime();
+    let rep = rt.block_on(async {
+        let mut rep = Report::new();
+        let opts = RunOpts { certificates: true, rows: true, client_verifier: false, signers_by_true_key: true, expect_certificate_on_honest_quorum: true };
+        let mut run = Run::boot(&c.cfg, "c16", opts).await;
+        let n = c.cfg.n_signers as usize;
+        for op in &c.ops {
+            if run.violation.is_some() {
+                break;
+            }
+            match op {
+                Op::Sign(s) => {
+                    // honest parties of the mask act in honest form, the others as generated
+                    let honest_part = s.mask & c.honest_mask;
+                    let other_part = s.mask & !c.honest_mask;
+                    if honest_part != 0 {
+                        let mut h = honest_form(s.clone());
+                        h.mask = honest_part;
+                        run.apply(&Op::Sign(h)).await;
+                    }
+                    if other_part != 0 && run.violation.is_none() {
+                        let mut a = s.clone();
+                        a.mask = other_part;
+                        run.apply(&Op::Sign(a)).await;
+                    }
+                }
+                other => run.apply(other).await,
+            }
+        }
+        // classes
+        let mut shape = std::collections::BTreeSet::new();
+        let mut mislabelled_valid = 0;
+        for subs in run.obs.subs.values() {
+            for (i, s) in subs.iter().enumerate() {
+                rep.label(format!("submission:{}", s.class));
+                let label_party = run.model.party_index(&s.label);
+                let mislabelled = label_party != Some(s.producer);
+                if mislabelled && s.valid_for_producer == Some(true) {
+                    mislabelled_valid += 1;
+                    // order relative to the honest submission of the party whose name / signature is used
+                    let victim_label = label_party.filter(|p| c.honest_mask & (1 << p) != 0);
+                    let victim_sig = Some(s.producer).filter(|p| c.honest_mask & (1 << p) != 0 && *p != s.by);
+                    let before = |v: Option<usize>| match v {
+                        None => "-",
+                        Some(p) => {
+                            if subs.iter().take(i).any(|h| h.honest && h.by == p && h.stored) { "after-honest" } else { "before-honest" }
+                        }
+                    };
+                    shape.insert(format!("{}:{}:{}:{}", s.class, before(victim_label), before(victim_sig), if s.stored { "stored" } else { "not-stored" }));
+                    rep.label(format!("mislabelled-valid:{}", if s.stored { "stored" } else { "refused" }));
+                }
+                if s.honest && s.stored {
+                    rep.label("honest-stored");
+                }
+                if matches!(s.outcome, crate::sut::Submitted::Buffered) {
+                    rep.label(format!("buffered:{:?}", if s.honest { "honest" } else { "other" }));
+                }
+            }
+        }
+        let labels: Vec<String> = run.labels.iter().filter(|l| !l.starts_with("sign:")).cloned().collect();
+        for l in labels {
+            rep.label(l);
+        }
+        let certs = run.non_genesis_certificates();
+        rep.label(format!("certificates:{}", certs.min(3)));
+        if run.obs.certs.iter().filter(|c| !c.is_genesis()).any(|c| run.model.members_for_signing_epoch(c.epoch.0).len() < n) {
+            rep.label("certificate-with-partial-signer-set");
+        }
+        if mislabelled_valid > 0 {
+            let s: Vec<String> = shape.into_iter().collect();
+            rep.nontrivial(s.join(" + "));
+        }
+        if let Some((k, w)) = run.violation.clone() {
+            rep.violation(k, w);
+        }
+        run.shutdown().await;
+        rep
+    });
+    rt.shutdown_background();
+    rep
+}
 
 pub fn run(args: &Args) -> i32 {
-    let check = Check::new("C16", "exploration", args);
-    check.inconclusive("check not implemented yet".into());
+    let mut check = Check::new("C16", "exploration", args);
+    check
+        .rule(
+            "round history on the real aggregator with 3..6 signers, a generated honest subset, and 6..16 operations: \
+             submissions from {own, other registered, unregistered name} x {own signature, copy of another party's} x \
+             {valid, wrong message, next/previous epoch key, duplicate} x {matching, truncated, extended index list} x \
+             {HTTP route, message-queue processor} x {open message exists, not yet (buffer)}, ticks, new immutable file, \
+             registrations, epoch change; plus the enumerated product on a 3-signer system; non-trivial = at least one \
+             submission whose name is not its producer's and whose signature is cryptographically valid for the open \
+             message; distinct by the set of (name class, signature class, inlet, target class, before/after the honest \
+             submission of the party whose name / signature is used, stored or not)",
+        )
+        .assume("the message queue delivers the sender's authenticated pool id as party id and rebuilds the index list from the signature (SignatureConsumerDmq); the harness feeds the real SequentialSignatureProcessor through the repo's FakeSignatureConsumer accordingly")
+        .assume("signer stakes and protocol parameters are constant over a history")
+        .require_label("honest-stored")
+        .require_label("honest-quorum-certified")
+        .require_label("buffered:\"other\"")
+        .shrink_iters(150);
+    crate::model::warm_up(6);
+    let t = check.tier;
+    check.enumerate("label-signature-product", product().into_iter(), true, run_case);
+    check.section("rounds", case_strategy, t.pick(240, 10000), run_case);
     check.finish()
 }
